@@ -468,6 +468,8 @@ class Backend:
         self.pg.attach(self.stream, self.env_ref)
         over = dict(self.server_over)
         over.setdefault('last_activity', Agg([BV(64, FROZEN)], 'SystemTime'))
+        # (the statistics object of this connection is tagged with (backend, generation): C18's reference follows its reported state)
+        over.setdefault('stats', Ptr(Cell(Opaque('ServerStats', 'stats', (self.idx, self.generation)), 'sstats')))
         self.server = mk_server(ip, prog, self.stream, address=Agg(list(self.addr.fields), 'Address', self.addr.names), **over)
         self.cell = Cell(self.server, 'server%d.%d' % (self.idx, self.generation))
 
@@ -636,7 +638,10 @@ class HandleEnv:
             tgt = None
             if who == 'ServerStats' and a:
                 try:
-                    sv = deref(c.ip, a[0])
+                    sv = a[0]
+                    for _ in range(3):
+                        if isinstance(sv, Ptr):
+                            sv = deref(c.ip, sv)
                     tgt = getattr(sv, 'data', None)
                 except Exception:      # noqa: BLE001
                     tgt = None
@@ -1112,6 +1117,37 @@ def judge(data, script, dec, expect_forward=None, cache_on=False, denied=None, e
                     V.append(('C18', 'H/client-state', 'while it %s the client is reported as %s (before reading message %d)' %
                               ('holds a server' if e[2] else 'holds no server and waits for the client', cstate, e[1])))
                     break
+        # every live server connection is listed with its true state: active while a client holds it, idle once it is back in the
+        # pool -- at every point where the session waits for its client, and when the client has gone (however it left)
+        sstate = {}
+        held_now = set()
+        discarded = set()
+
+        def server_states(where):
+            for tg, st in sorted(sstate.items()):
+                if tg in discarded or tg is None:
+                    continue
+                if tg[0] not in held_now and st == 'active':
+                    V.append(('C18', 'H/server-state', '%s the connection of backend %d is back in the pool but still listed as active' % (where, tg[0])))
+                    return True
+            return False
+        cur_gen = {}
+        for e in data['events']:
+            if e[0] == 'stat' and e[1] == 'ServerStats' and e[2] in ('idle', 'active') and e[3] is not None:
+                sstate[tuple(e[3])] = e[2]
+                cur_gen[e[3][0]] = tuple(e[3])
+            elif e[0] == 'checkout':
+                held_now.add(e[1])
+            elif e[0] == 'putback':
+                held_now.discard(e[1])
+                if e[2] and e[1] in cur_gen:
+                    discarded.add(cur_gen[e[1]])        # bb8 dropped the connection: it is no longer listed at all
+            elif e[0] == 'client_read' and e[1] >= 1 and not e[2]:
+                if server_states('while the session waits for message %d of its client' % e[1]):
+                    break
+        else:
+            if outcome[0] in ('done', 'panic'):
+                server_states('after the client has gone (%s)' % (outcome[1] if outcome[0] == 'done' else 'panic'))
         if outcome[0] in ('done', 'panic') and ndisc == 0:
             V.append(('C18', 'H/client-never-unregistered/' + outcome[0], 'the session is over (%s) but the client was never removed from the statistics' % (outcome,)))
         units = [r for r in data['reqs'] if r.get('origin') == 'client' and code_of(r['bytes']) in 'QS']
